@@ -89,7 +89,18 @@ func C16(c *core.Ctx) {
 				if f.R {
 					body += "R=${K}\n"
 				}
-				_ = os.WriteFile(filepath.Join(dir, name), []byte(body), 0o644)
+				if (n+i)%5 == 2 {
+					// the file reached through a symbolic link
+					_ = os.WriteFile(filepath.Join(dir, "real-"+name), []byte(body), 0o644)
+					if os.Symlink("real-"+name, filepath.Join(dir, name)) != nil {
+						_ = os.WriteFile(filepath.Join(dir, name), []byte(body), 0o644)
+					}
+				} else {
+					_ = os.WriteFile(filepath.Join(dir, name), []byte(body), 0o644)
+				}
+			} else if (n+i)%3 == 0 {
+				// missing as a link whose target does not exist (there is no such file, whatever the directory lists)
+				_ = os.Symlink("gone-"+name, filepath.Join(dir, name))
 			}
 		}
 		repeat := asBool(cs["repeat"])
@@ -119,6 +130,8 @@ func C16(c *core.Ctx) {
 					body += "R=${K}\n"
 				}
 				_ = os.WriteFile(filepath.Join(dir, name), []byte(body), 0o644)
+			} else if (n+i)%3 == 1 {
+				_ = os.Symlink("gone-"+name, filepath.Join(dir, name))
 			}
 		}
 		if lentry == "value" {
